@@ -597,13 +597,37 @@ triage_dead_child(const std::string& text_in, int wstatus, const std::string& en
   if (std::regex_search(text, m, asan_re))
     {
       excerpt = text.substr(static_cast<size_t>(m.position(0)), 2500);
-      return "asan-" + std::string(m[1]) + fr_s;
+      std::string key = "asan-" + std::string(m[1]) + fr_s;
+      // use-after-free: the same access site can be reached with memory freed at different places (= different defects)
+      const size_t fb = text.find("freed by thread");
+      if (fb != std::string::npos)
+        {
+          const std::string tail = text.substr(fb, 6000);
+          static const std::regex fr2("#[0-9]+ 0x[0-9a-f]+ in (.+?) (/[^ \n]+?):([0-9]+)");
+          for (std::sregex_iterator it(tail.begin(), tail.end(), fr2), end; it != end; ++it)
+            {
+              const std::string path = (*it)[2];
+              if (path.find("/src/") == std::string::npos || path.find("/harness/") != std::string::npos)
+                continue;
+              key += ":freed-in:" + short_fn((*it)[1]) + "@" + base_name(path);
+              excerpt += "\n...\n" + tail.substr(0, 1200);
+              break;
+            }
+        }
+      return key;
     }
   static const std::regex ub_re("([^ \n:]+):([0-9]+):[0-9]+: runtime error: ([^\n]*)");
   if (std::regex_search(text, m, ub_re))
     {
       excerpt = text.substr(static_cast<size_t>(m.position(0)), 2500);
       std::string msg = m[3];
+      // Arithmetic on absurd header values (signed overflow, float -> int conversion out of range) is undefined behaviour
+      // but none of the events the property statement lists (out-of-bounds access, unbounded allocation, size mismatch,
+      // crash instead of rejection): the release build carries on with a wrapped value and then accepts or rejects.  These
+      // reports are counted, not reported; the same inputs run without UBSan in the "rel" stage.  (Division by zero stays
+      // a violation: it kills the release build.)
+      if (msg.find("signed integer overflow") != std::string::npos || msg.find("is outside the range of representable values") != std::string::npos)
+        return std::string();
       msg = std::regex_replace(msg, std::regex("0x[0-9a-f]+"), "P");
       msg = std::regex_replace(msg, std::regex("[-+]?[0-9][0-9.e+x]*"), "N");
       msg = std::regex_replace(msg, std::regex("[^A-Za-z]+"), "_");
@@ -775,6 +799,15 @@ struct Isolator
       }
     std::string excerpt;
     const std::string key = triage_dead_child(text, wstatus, entry, excerpt);
+    if (key.empty())
+      {
+        res.viols.clear();
+        res.status = 0;
+        res.how = "stopped-by-arithmetic-overflow-report";
+        res.counts.clear();
+        res.count("children_stopped_by_arithmetic_overflow_report_(not_in_scope)");
+        return res;
+      }
     res.viols.clear();
     res.viol(key, excerpt);
     res.how = "died";
@@ -1615,14 +1648,34 @@ finish_alloc(Result& r, const std::string& entry, const Input& in)
   r.refused_max = std::max(r.refused_max, g_alloc.refused_max);
 }
 
+// the class whose keyword table parses this family of inputs (names the site of allocation findings)
+std::string
+parser_class(const Seed& seed)
+{
+  const std::string& f = seed.family;
+  if (f == "image" || f == "dynimage")
+    return "InterfileImageHeader";
+  if (f == "pdfs")
+    return "InterfilePDFSHeader";
+  if (f == "spect")
+    return "InterfilePDFSHeaderSPECT";
+  if (f == "siemens")
+    return "InterfilePDFSHeaderSiemens";
+  if (f == "multi")
+    return "MultipleDataSetHeader";
+  if (f == "kp")
+    return "TestParser";
+  return keyify(seed.name);
+}
+
 void
 report_alloc(Result& r, const std::string& entry, const Input& in)
 {
   if (r.refused_max > GiB)
     {
       r.viols.clear();
-      r.viol("unbounded-allocation:" + (in.culprit.empty() ? std::string("no-single-key") : keyify(in.culprit)),
-             "a single allocation of " + std::to_string(r.refused_max) + " bytes was requested while parsing an input of "
+      r.viol("unbounded-allocation:" + parser_class(*in.seed),
+             "keyword changed: '" + (in.culprit.empty() ? std::string("(no single keyword)") : in.culprit) + "'; a single allocation of " + std::to_string(r.refused_max) + " bytes was requested while parsing an input of "
                  + std::to_string(in.text.size()) + " bytes through " + entry + " (mutation " + in.kinds + ")\n--- input:\n" + clip(in.text, 3000));
     }
   else if (r.refused_max > 0)
@@ -2134,6 +2187,13 @@ splice_pool(const std::string& family)
     "index nesting level := {time frame, data type}",
     "!END OF INTERFILE :=",
     "!INTERFILE :=",
+    // several lines at once (keys whose handlers interact)
+    "!version of keys := STIR3.0\nnumber of energy windows := 3\nenergy window lower level := 100\nenergy window upper level := 600",
+    "number of energy windows := 2\nenergy window lower level[2] := 100\nenergy window upper level[2] := 600",
+    "number of time frames := 2\nimage duration (sec)[2] := 5\nimage relative start time (sec)[2] := 100",
+    "number of time frames := 1000\nimage duration (sec) := 5",
+    "number of image data types := 2\nimage scaling factor[2] := 3\ndata offset in bytes[2] := 480",
+    "number of dimensions := 1\n!matrix size [1] := 4",
   };
   static const std::vector<std::string> kp = {
     "number of items := 100", "number of items := 0", "item int[5] := 1", "item list[2] := {1,2,3}", "shape type := Box3D", "shape type := None",
@@ -2316,16 +2376,37 @@ apply_kind(Mutated& m, std::vector<std::string>& lines, int kind, const Seed& se
             if (t.empty())
               break;
           }
-        lines = split_lines(t);
-        ++m.n_culprits;
-        m.culprit.clear();
+        {
+          // if the bytes changed a single line, that line's keyword is the changed key
+          std::vector<std::string> nl = split_lines(t);
+          std::map<std::string, int> bal;
+          for (auto& l : lines)
+            --bal[l];
+          std::string changed;
+          int n_changed = 0;
+          for (auto& l : nl)
+            if (++bal[l] > 0)
+              {
+                ++n_changed;
+                changed = l;
+              }
+          lines = nl;
+          if (n_changed == 1 && !ref_split(changed).kw.empty())
+            note_culprit(m, ref_split(changed).kw);
+          else
+            {
+              ++m.n_culprits;
+              m.culprit.clear();
+            }
+        }
         return true;
       }
       case K_SPLICE: {
         std::string l = rng.coin(0.8) ? rng.pick(splice_pool(seed.family)) : rng.pick(lines);
         const size_t at = static_cast<size_t>(rng.range(1, static_cast<long>(lines.size())));
-        note_culprit(m, ref_split(l).kw);
-        lines.insert(lines.begin() + static_cast<long>(std::min(at, lines.size())), l);
+        const std::vector<std::string> ls = split_lines(l); // a pool entry can consist of several lines
+        note_culprit(m, ref_split(ls.empty() ? l : ls[0]).kw);
+        lines.insert(lines.begin() + static_cast<long>(std::min(at, lines.size())), ls.begin(), ls.end());
         return true;
       }
       case K_CONT: {
